@@ -6,6 +6,30 @@ import os
 HERE = os.path.dirname(os.path.dirname(os.path.abspath(__file__)))
 
 CHECKS = {
+    'C01': dict(
+        text='Lean 4 theorems over exact rationals, for rings of any length and every query: the ring test of the model equals '
+             '"on no edge and odd half-open crossing count" (insideEO), a boundary point is not contained, the answer depends only '
+             'on the multiset of undirected edges (start-vertex and winding independence, also through the constructor '
+             'normalisation), the bounding-box prefilter never changes the answer (closed-walk parity), polygon-with-holes and box '
+             'membership are the stated set expressions, and on rectangles insideEO is elementary insideness. Tied to '
+             'structures.py by exhaustive small-grid rings x half-step queries x all rotations/reversals, holes, boxes, random rings.',
+        note='Trusted: Lean kernel + Mathlib; Jordan link (even-odd parity = topological inside for simple rings) assumed and '
+             'validated against an independent winding-number oracle; rational model vs binary64 code compared on dyadic grids only; '
+             'antimeridian-spanning shapes excluded by the statement.',
+        technique='Lean 4 proof (model = even-odd spec, invariance lemmas) + exhaustive/random differential correspondence vs GeoPolygon/GeoBox',
+        design='§6 C01'),
+    'C02': dict(
+        text='Lean 4 theorems over exact rationals: find_line_intersection finds a point iff the segments are non-parallel and share a '
+             'point (and the point lies on both); the latitude sweep returns True iff some edge pair properly crosses, for ALL edge '
+             'lists (duplicates, horizontal edges, edges ending where another starts), hence is symmetric and independent of edge '
+             'order/direction; at shape level intersects_shape is symmetric, containment implies intersection, neither raises for '
+             'valid shapes, linestring containment is the contiguous-sub-sequence relation, and time bounds are never read. Tied to '
+             'the code by segment pairs (3x3 grid), raw sweeps, and random + relational shape pairs in both orders with time bounds.',
+        note='Trusted: Lean kernel + Mathlib; the step from edge crossings + first-vertex containment to closed-set truth for simple '
+             'polygons is the Jordan argument (assumed; every generated pair is also judged by an exact Fraction set-truth oracle); '
+             'collinear-only boundary overlap is documented as unspecified; 1e-10 rounding inert on the dyadic grids used.',
+        technique='Lean 4 proof (segment geometry, sweep invariant, relation laws) + differential correspondence + exact set-truth oracle',
+        design='§6 C02'),
     'C06': dict(
         text='Lean 4 theorems: every TimeInterval operator of the model equals the dense-time set model '
              '[start,end) / {start} for all intervals and instants (membership, subset, superset, disjoint, '
